@@ -648,8 +648,19 @@ fn encode_hex_after<T: BinaryCodec>(v: &T, pre: &[u8]) -> R<String> {
     }
 }
 
+static TWICE: std::sync::atomic::AtomicBool = std::sync::atomic::AtomicBool::new(false); // ENCX: answer with the second encoding
+
 fn enc_out<T: BinaryCodec>(id: &str, v: &T) -> String {
     let pre: Vec<u8> = PRE.lock().map(|mut p| std::mem::take(&mut *p)).unwrap_or_default();
+    if TWICE.swap(false, std::sync::atomic::Ordering::SeqCst) {
+        if let Err(e) = encode_hex_after(v, &pre) {
+            return format!("ERR {} error {}\n", id, e);
+        }
+        return match encode_hex(v) {
+            Ok(h) => format!("ENC {} {}\n", id, h),
+            Err(e) => format!("ERR {} error second encoding of the same object: {}\n", id, e),
+        };
+    }
     match encode_hex_after(v, &pre) {
         Ok(h) => format!("ENC {} {}\n", id, h),
         Err(e) => format!("ERR {} error {}\n", id, e),
@@ -708,6 +719,12 @@ fn main() {
         let id = t[1];
         let res = match t[0] {
             "ENC" => do_enc(id, &t),
+            "ENCX" => {
+                TWICE.store(true, std::sync::atomic::Ordering::SeqCst);
+                let r = do_enc(id, &t);
+                TWICE.store(false, std::sync::atomic::Ordering::SeqCst);
+                r
+            }
             "DEC" => do_dec(id, &t),
             "PRE" => {
                 let d = unhex(t.get(2).copied().unwrap_or("")).unwrap_or_default();
